@@ -193,6 +193,33 @@ def check_create_order(ctx):
     return ob
 
 
+def check_journal_exclusive(ctx):
+    """a directory that holds a journal but no version marker goes down the create path: what refuses it is that the first journal file is created exclusively.
+    Writer::create_new must therefore never open an existing file (no create+truncate)"""
+    pat = r'^journal::writer::<impl>::create_new$|^writer::<impl>::create_new$'
+    ob = ctx.ob('create/journal-exclusive', 'Writer::create_new: the journal file is created with create_new semantics (fails if it exists), so creating a database can never truncate the journal of an '
+                'existing database whose version marker is missing', [pat])
+    try:
+        ex, paths = ctx.run(pat, cache_key='c17.writer_create_new', loop_bound=2)
+    except KeyError as e:
+        ob.status = 'undecided'; ob.detail = f'function not found: {e}'; return ob
+    bad = []
+    for p in paths:
+        opens = [e for e in p.events if e.kind == 'F_OPEN']
+        calls = [e.args.get('callee', '') for e in p.events if e.kind == 'CALL']
+        for e in opens:
+            ob.reach += 1
+            if e.args.get('how') != 'create_new':
+                bad.append((p, f'the journal file is opened with "{e.args.get("how")}" instead of an exclusive create: an existing journal is reused or truncated')); break
+        if not opens and any(c.endswith(('File::create', 'OpenOptions::open')) for c in calls):
+            ob.reach += 1
+            bad.append((p, 'the journal file is not created exclusively (File::create truncates an existing journal)'))
+        if bad:
+            break
+    finish(ctx, ob, bad, 'Writer.create_new/not-exclusive', lambda: native_marker(ctx, [None]))
+    return ob
+
+
 def check_lock_shared(ctx):
     ob = ctx.ob('lock/shared', 'keyspace handles hold a clone of the database lock guard; File::unlock is called only from the guard\'s Drop', ['*'])
     bad = []
@@ -526,9 +553,11 @@ def dir_fingerprint_cmds(path):
 def native_marker(ctx, contents):
     """a directory whose version marker holds `content` must be refused and left untouched (with and without a lock file lying around)"""
     last = (False, None, 'not run')
-    for content, rmlock in [(c, r) for c in contents for r in (False, True)]:
-        hexc = content.hex() if content else '-'
-        L = ['dir $DIR/db', 'open workers=0', 'ks a', 'insert a 6b31 31', 'close', f'writefile $DIR/db/version {hexc}'] + (['rmfile $DIR/db/lock'] if rmlock else []) + ['fingerprint $DIR/db',
+    # (an absent marker sends the open down the create path, which takes the directory lock first: with the lock file removed as well that leaves an empty lock file behind -
+    #  the locking protocol's own file, not counted as a modification; the marker-absent case is therefore run with the lock file in place)
+    for content, rmlock in [(c, r) for c in contents for r in (False, True) if not (c is None and r)]:
+        hexc = content.hex() if content else ('-' if content is not None else 'absent')
+        L = ['dir $DIR/db', 'open workers=0', 'ks a', 'insert a 6b31 31', 'close', (f'writefile $DIR/db/version {hexc}' if content is not None else 'rmfile $DIR/db/version')] + (['rmfile $DIR/db/lock'] if rmlock else []) + ['fingerprint $DIR/db',
              'open workers=0', 'fingerprint $DIR/db', 'close']
         spath, out = ctx.run_scenario('\n'.join(L) + '\n', tag='marker-' + (hexc[:16]) + ('-nolock' if rmlock else ''))
         rs = [(c, r) for _i, c, r in out]
@@ -576,7 +605,20 @@ def native_lock_and_marker(ctx):
     op2 = [r for _i, c, r in out2 if c == 'open']
     if len(op2) == 2 and op2[1] != 'ok':
         return True, sp2, f'reopening right after the last handle was dropped failed: {op2[1]}'
-    r2 = native_marker(ctx, [b'FJL\x02', b'FJL\x04', b'', b'FJL', b'XJL\x03'])
+    # a sealed journal that still has to be kept (lagging keyspace) at drop time: its watermarks hold keyspace handles - the drop must break that cycle too
+    L3 = ['dir $DIR/db3', 'open workers=0', 'rotation_threshold 0', 'ks a', 'ks b', 'insert b 6b31 41', 'insert a 6b31 31', 'rotate a', 'worker_drain', 'journal_count', 'close',
+          'rotation_threshold 64000000', 'open workers=0', 'ks a', 'ks b', 'dump a', 'dump b', 'close']
+    sp3, out3 = ctx.run_scenario('\n'.join(L3) + '\n', tag='drop-sealed-journal')
+    if any(c == 'CRASH' for _i, c, _r in out3):
+        return True, sp3, 'crash: ' + out3[-1][2][-200:]
+    op3 = [r for _i, c, r in out3 if c == 'open']
+    jc3 = [r for _i, c, r in out3 if c == 'journal_count']
+    if jc3 and jc3[0] == 'n=2' and len(op3) == 2 and op3[1] != 'ok':
+        return True, sp3, f'the last handle was dropped while a sealed journal was still queued (its watermarks hold keyspace handles): reopening fails with {op3[1]} - the directory lock was never released'
+    d3 = [r for _i, c, r in out3 if c == 'dump']
+    if d3 and d3 != ['[6b31:31]', '[6b31:41]']:
+        return True, sp3, f'content after drop with a sealed journal and reopen: {d3}'
+    r2 = native_marker(ctx, [b'FJL\x02', b'FJL\x04', b'', b'FJL', b'XJL\x03', None])
     return r2 if r2[0] else (False, spath, 'held natively')
 
 
@@ -613,6 +655,7 @@ def run(ctx):
     check_check_version(ctx)
     check_recover_order(ctx)
     check_create_order(ctx)
+    check_journal_exclusive(ctx)
     check_lock_shared(ctx)
     check_lock_acquire(ctx)
     check_drop(ctx)
